@@ -31,6 +31,7 @@ for r in recs:
                 shown[key] += 1
                 print("IMPL!=SPEC", kid, json.dumps(c, ensure_ascii=False)[:400]); print("   impl", json.dumps(p, ensure_ascii=False)[:600]); print("   spec", json.dumps(dec["spec"], ensure_ascii=False)[:600])
     fm = getattr(mod, "for_model", None)
+    if dec.get("model_unsupported"): continue
     if (json.loads(json.dumps(fm(c, impl), default=str)) if fm else impl) != dec["model"]:
         nd += 1
         if shown["M"] < 6:
